@@ -225,7 +225,7 @@ def from_formatted_lines(lines):
         elif line.startswith(' .'):
             # containing a space, a full stop and some more characters:  for
             # future expansion.... but we keep them for now
-            text.append(line[2:])
+            text.append(line[1:])
         elif line.startswith(' '):
             # starting with a single space. kept stripped
             text.append(line.strip())
